@@ -302,6 +302,9 @@ func (e *Env) Close() (ok bool) {
 	return ok
 }
 
+// URL returns the address of an API path on the running server.
+func (e *Env) URL(path string) string { return e.httpURL(path) }
+
 func (e *Env) httpURL(path string) string {
 	h, _, _ := e.Srv.Ports()
 	return fmt.Sprintf("http://127.0.0.1:%d%s", h, path)
